@@ -154,4 +154,61 @@ def k4(ctx, kr):
     kr.exhaustive = True
     kr.outside = ['non-ASCII subjects (the regex crate is Unicode-aware); longer addresses']
 
-KERNELS = [k2, k3, k4]
+# ---------------------------------------------------------------------------------------------- K5 building the syntax error never panics, whatever the offending token's text
+def _k5_job(job):
+    tlen, = job
+    from . import lexcommon as LC
+    ctx = _CTX; part = Part()
+    P = ctx.program(['ironplc-parser', 'ironplc-dsl', 'peg-runtime'])
+    TT = P.enums['TokenType']
+    key = P.find_fn('ironplc-parser', 'parser::parse_library')
+    M = Machine(P, max_steps=50_000_000, stubs={r'^<token::TokenType as std::clone::Clone>::clone$': lambda M_, fr, c, a: EnumV('TokenType', M_.deref(a[0]).disc, [])}); st = {}
+    NSYM = 6
+    def entry(M):
+        tt = M.fresh_bv('tt', 64); M.declare_domain(tt, list(range(len(TT)))); st['tt'] = tt
+        bs = [M.fresh_bv('b%d' % i, 8) for i in range(NSYM)]
+        valid, _ = LC.utf8_valid(bs); M.assume(valid)
+        for b in bs: M.assume(z3.And(b != 10, b != 13))
+        st['bs'] = bs
+        text = [ord('a')] * (tlen - NSYM) + bs
+        tok = Agg('Token', [EnumV('TokenType', tt, []), Agg('SourceSpan', [0, tlen, Agg('FileId', [Str('f.st')])]), 0, 0, Str(text)])
+        return M.call_fn(key, [VecV([tok])])
+    def on_path(M, pr):
+        part.paths += 1
+        if pr.inconclusive: part.inconc(pr.inconclusive); return
+        part.nontrivial += 1
+        if not pr.panic:
+            if len(part.samples) < 1: part.samples.append({'token_text_bytes': tlen, 'result': 'Ok' if pr.result.disc == 0 else 'Err'})
+            return
+        s = z3.Solver(); s.add(*pr.pc); part.queries += 1
+        if s.check() != z3.sat: return
+        m = s.model(); kind = TT[m.eval(st['tt'], True).as_long()]
+        data = bytes([ord('a')] * (tlen - NSYM) + [m.eval(b, True).as_long() for b in st['bs']])
+        part.add('C04/K5/syntax-error-panic/' + re.sub(r'[^a-z]+', '-', pr.panic.msg.lower())[:40].strip('-'), 'parse_library panics while reporting an unexpected %s token of %d bytes: %s' % (kind, tlen, pr.panic.msg[:80]),
+                 {'token_type': kind, 'token_text': data.decode('utf-8', 'replace')}, ('long_token', (data.decode('utf-8'),)))
+    M.explore(entry, on_path, max_paths=4000)
+    part.queries += M.stats['smt']; part.encoded = set(M.encoded); part.models = set(M.models_used)
+    return part
+
+@replay_factory('long_token')
+def _replay_long_token(text):
+    def rp(ctx):
+        # the text as a string literal where no expression may follow: the parser reports it as the unexpected token
+        src = "PROGRAM p\nVAR\n  x : INT;\nEND_VAR\n  x := 1 '%s';\nEND_PROGRAM\n" % text.replace("'", ' ')
+        r = ctx.replay({'cmd': 'parse', 'source': src})
+        return 'panic' in r, {'source': src, 'result': {k: str(v)[:160] for k, v in r.items() if k != 'debug'}}
+    return rp
+
+@kernel('K5 parser.syntax_error_message_no_panic')
+def k5(ctx, kr):
+    global _CTX
+    _CTX = ctx
+    lens = [8, 40, 41, 42, 43, 44, 45, 46] if ctx.tier == 'quick' else list(range(6, 72))
+    kr.bounds = 'parse_library on one token of any of the %d token types whose text has %s bytes: the last 6 bytes symbolic valid UTF-8 (1-4 byte characters at every alignment), the rest ASCII' % (134, lens)
+    for part in par_map(_k5_job, [(n,) for n in lens]): merge_part(kr, part)
+    P = ctx.program()
+    kr.functions = fn_paths(P, getattr(kr, '_enc', set()))[:60]
+    kr.exhaustive = True
+    kr.outside = ['token texts of other lengths; several tokens; the same for lexical errors (C14-K2)']
+
+KERNELS = [k2, k3, k4, k5]
